@@ -3,7 +3,7 @@ import itertools
 import random
 import re
 
-from . import solverfam as sf, solvercorr as sc, scenarios
+from . import common, solverfam as sf, solvercorr as sc, scenarios
 from .common import Check
 
 HEADER = 'From Coq Require Import ZArith NArith List Bool.\nFrom HV Require Import Solver TrackerExec.\nImport ListNotations.\nOpen Scope Z_scope.\n'
@@ -202,9 +202,10 @@ def run(tier, seed):
     bad = 0
     for case in dis_cases + cases:
         R = exec_with_waits(H, case)
-        if R.budget_exceeded:
-            ck.violation('C06:generated:attempt-budget', 'solve did not finish within %d attempts' % R.budget,
-                         {'kind': 'failing-input', 'case': case}, found=True)
+        if R.budget_exceeded or isinstance(R.exc, common.SolveDidNotFinish):
+            ck.violation('C06:generated:attempt-budget', 'solve did not finish within %d attempts / %d passes of the main loop (%s)' % (
+                R.budget, common.WATCHDOG_PASSES, type(R.exc).__name__),
+                         {'kind': 'failing-input', 'case': case, 'how_to_run': 'vlib.solvercorr.exec_case(case) on the real solver'}, found=True)
             continue
         probs = mon_c06(H, R, case)
         ck.count(('case', str(case)[:3000]), nontrivial=any(len(v) > 0 for v in R.waits.values()))
